@@ -8,6 +8,7 @@ CONSTANTS
   Fmts = {"bc"}
   NFiles = {2}
   Lazy = {FALSE}
+  Touches = {"lookup", "getitem"}
   Variant = "design"
 CONSTRAINT Emit
 CONSTRAINT OnlyInit
